@@ -1,7 +1,7 @@
 #!/bin/bash
 # offline build of the whole framework: translators -> Gen, full .vo build, extraction, model runner
 set -e
-cd "$(dirname "$0")"
+cd "$(dirname "$0")"; mkdir -p extract/ml extract/bin replays evidence
 export PYTHONPATH="${NV_REPO:-/repo}/src:$PWD/harness:$PWD/translate" PYTHONHASHSEED=0 PYTHONDONTWRITEBYTECODE=1
 /venv/bin/python - <<'PY'
 import common, kernels, sys
@@ -11,7 +11,12 @@ with common.BuildLock():
     common.ensure_makefile()
     rc, out = common.sh(['make', '-j16', '-k'], cwd=common.COQ, timeout=3000)
     print(out[-3000:])
-    ok, log = common.build_extraction()
-    print('extraction', ok, log[-500:] if not ok else '')
-    sys.exit(0 if ok else 1)
+    import glob, os
+    bad = 0
+    for f in sorted(glob.glob(os.path.join(common.VERIF, 'extract', '*_run.ml'))):
+        name = os.path.basename(f)[:-7]
+        ok, log = common.build_extraction(name)
+        print('extraction', name, ok, log[-500:] if not ok else '')
+        bad += (not ok)
+    sys.exit(1 if bad else 0)
 PY
